@@ -311,8 +311,11 @@ func (c *Conn) shutdown(abortErr error) error {
 		if a != nil {
 			releaseList(a.resultCapTable).release()
 			// Because shutdown is now the only task running, no need to
-			// acquire sender lock.
-			a.releaseMsg()
+			// acquire sender lock.  Placeholder answers (see errorAnswer
+			// and handleCall) have no message to release.
+			if a.releaseMsg != nil {
+				a.releaseMsg()
+			}
 		}
 	}
 
